@@ -14,6 +14,7 @@ import (
 //   - the Open Session Response was 36 bytes,
 //   - the RAKP 2 AuthCode is HMAC_password(SID_M, SID_C, R_M, R_C, GUID_C, Role, ULen, UName),
 //   - the RAKP 4 ICV is trunc(HMAC_SIK(R_M, SID_C, GUID_C)), SIK = HMAC_KG(R_M, R_C, Role, ULen, UName).
+//
 // Whenever the RAKP 2 reply is well-formed with status 0 and the right tag but a different
 // AuthCode, the error is ErrIncorrectPassword.
 func VerifC02_ArbitraryHandshake() {
@@ -138,16 +139,18 @@ func VerifC02_ArbitraryHandshake() {
 
 // C02 (derived transcripts): the reference BMC runs a correct handshake except for ONE
 // deviation, chosen from the property's catalogue:
-//   0 the BMC holds a different password (one byte differs)
-//   1 the BMC holds a different KG (one byte differs; only when KG is in use)
-//   2 one byte of the authenticated fields of RAKP 2 is changed after the AuthCode was
-//     computed (console session ID echo, BMC random, GUID, AuthCode)
-//   3 one byte of the BMC session ID in the Open Session Response is changed (the BMC keeps
-//     computing with its real ID)
-//   4 one byte of the RAKP 4 ICV is changed
-//   5 the status code of one of the three replies is non-zero
-//   6 the tag of one of the three replies is changed
-//   7 one of the three replies is truncated at an arbitrary length
+//
+//	0 the BMC holds a different password (one byte differs)
+//	1 the BMC holds a different KG (one byte differs; only when KG is in use)
+//	2 one byte of the authenticated fields of RAKP 2 is changed after the AuthCode was
+//	  computed (console session ID echo, BMC random, GUID, AuthCode)
+//	3 one byte of the BMC session ID in the Open Session Response is changed (the BMC keeps
+//	  computing with its real ID)
+//	4 one byte of the RAKP 4 ICV is changed
+//	5 the status code of one of the three replies is non-zero
+//	6 the tag of one of the three replies is changed
+//	7 one of the three replies is truncated at an arbitrary length
+//
 // No session may be returned; deviation 0 must yield ErrIncorrectPassword.
 func VerifC02_DerivedTranscript() {
 	ft := &vFakeTransport{}
